@@ -22,6 +22,7 @@ let run (toks : string list) : string option =
       Some (match slice_read (bytes_of_arg b) with
        | Some (s, rest) -> Printf.sprintf "ok %s %s" (hex_of_bytes s) (hex_of_bytes rest)
        | None -> "fail")
+  | ["crc_al"; _; b] -> Some (hex_of_n (crc_value (bytes_of_arg b)))
   | ["crc"; b] -> Some (hex_of_n (crc_value (bytes_of_arg b)))
   | ["crc_extend"; init; b] -> Some (hex_of_n (crc_extend (n_of_hex init) (bytes_of_arg b)))
   | ["crc_mask"; x] -> Some (hex_of_n (crc_mask (n_of_hex x)))
